@@ -483,6 +483,22 @@ def check_helper(name, res):
                             fail("wrong-result", f"row {ri} [{mode}] x={x!r} args={setting!r}: {got!r}, Python gives {want[1]!r}")
                     elif got.ok:
                         fail("should-fail", f"row {ri} [{mode}] x={x!r} args={setting!r}: {got!r}, Python raises {want[1]}")
+                # the same helper as the function of a map over all inputs (twice over): one evaluated helper is
+                # applied to many elements, each application computes the Python operation
+                try:
+                    wants = [norm_result(py(_cp(x) if not isinstance(x, NC) else x, setting)) for x in inputs]
+                    if any(isinstance(w_, str) and w_ == "<fail>" for w_ in wants):
+                        wants = None
+                except Exception:  # noqa
+                    wants = None
+                if wants is not None and len(inputs) >= 2:
+                    import labrea.functions as F
+
+                    xs = [(_cp(x) if not isinstance(x, NC) else x) for x in inputs] * 2
+                    res["evaluations"] += 1
+                    gm = observe(None, lambda: [norm_result(v) for v in (Value(xs) >> F.map(step)).evaluate(copy.deepcopy(o))])
+                    if not gm.ok or freeze(gm.value) != freeze(wants * 2):
+                        fail("wrong-result-inside-map", f"row {ri} [{mode}] map over {xs!r} args={setting!r}: {gm!r}, Python gives {wants * 2!r}")
                 if mode == "option":
                     res["nontrivial"] += 1
                     ks = observe(None, lambda: step.keys(copy.deepcopy(o)))
